@@ -46,7 +46,11 @@ func sortRun(args []string) {
 	arrays = append(arrays, agentx.RandomArrays(*seed, *random, *maxLen)...)
 	var sk = newSink(*out, false)
 	var dead = 0
+	var reused = agentx.NewReused()
 	for _, a := range arrays {
+		if !reused.Run(a, func(r agentx.SortRec) { sk.put(r) }, 5*time.Second) {
+			dead++
+		}
 		if !agentx.SortAll(a, func(r agentx.SortRec) { sk.put(r) }, 5*time.Second) {
 			dead++
 			if dead > 3 {
